@@ -92,6 +92,16 @@ class Intervals:
                 elif isinstance(test.op, ast.Or) and not want:
                     for v in test.values:
                         atoms(v, False, acc)
+            elif isinstance(test, (ast.Name, ast.Attribute)):
+                # truthiness of a sequence: `if xs` <=> len(xs) >= 1, `if not xs` <=> len(xs) == 0 (only ever matched against `len(xs)` queries)
+                e = ast.parse(f"len({ast.unparse(test)})", mode="eval").body
+                acc.append((ast.unparse(e), ast.GtE if want else ast.Eq, 1 if want else 0, e))
+            elif isinstance(test, ast.Compare) and len(test.ops) == 1 and isinstance(test.ops[0], (ast.Eq, ast.NotEq)) and isinstance(test.comparators[0], ast.List) \
+                    and not test.comparators[0].elts:
+                # xs == [] / xs != []
+                e = ast.parse(f"len({ast.unparse(test.left)})", mode="eval").body
+                empty = isinstance(test.ops[0], ast.Eq) == want
+                acc.append((ast.unparse(e), ast.Eq if empty else ast.GtE, 0 if empty else 1, e))
             elif isinstance(test, ast.Compare):
                 left = test.left
                 ok = True
